@@ -25,7 +25,7 @@ def run(ctx: Ctx) -> None:
     from ahbicht.utility_functions import gather_if_necessary
 
     ctx.rule = ("AHB expressions with 1-4 parts, 2-6 requirement keys, hints, format keys, 1-4 package occurrences; per case 8/40 random schedules "
-                "(delays 0-6 per awaitable) and, where at most 4 awaitables of a kind take part, ALL completion permutations; gather_if_necessary on mixed lists; "
+                "(delays 0-6 per awaitable) and, where at most 4 awaitables of a kind take part, ALL completion permutations; gather_if_necessary on mixed lists; 2-4 evaluations run at once, each with its own context-local outcomes / hint texts / messages / package bodies, compared with each run alone; "
                 "distinct = (expression, content result, schedule)")
     ctx.coverage["generated_changed"] = extract.regenerate([])
     ok = ctx.lean_build(MODULES)
@@ -105,6 +105,52 @@ def run(ctx: Ctx) -> None:
                                "without_yielding": base, "got": got}, key=f"order:{'pkg' if any(k == 'pkg' and d for (k, _), d in sched.items()) else 'keys'}")
                 break
     ctx.coverage["distinct_completion_orders"] = len(orders_seen)
+
+    # ---- several evaluations at once, each with its own context-local data (own outcomes, hint texts, messages, package bodies) ----
+    for _ in range(ctx.pick(40, 300)):
+        m = rng.randint(2, 4)
+        jobs = []
+        for j in range(m):
+            x = g.expr()
+            if rng.random() < 0.5:
+                x = {"parts": [["MUSS", "Muss", rng.choice(["[1] U [501] U [502]", "[7P] O ([8P] U [9P])", "[1][901] X [2][902]", "([9P] O [7P]) U [8P] U [501]", "[501] O [502]"])]]}
+            cer = g.cer(p_unknown=0.05)
+            cer["hints"] = {k: f"Hinweis {k} von {j}" for k in cer["hints"]}
+            cer["packages"] = {"7P": rng.choice(["[1] U [2]", "[2] O [3]"]), "8P": rng.choice(["[3] O [4]", "[4]"]), "9P": rng.choice(["[5]", "[1] X [5]"])}
+            jobs.append((V.expr_text(x), cer, rng.randint(0, 3)))
+
+        async def one(s, cer, pre):
+            for _ in range(pre):
+                await asyncio.sleep(0)
+            evalenv.set_cer(evalenv.make_cer(rc=cer["rc"], fc={k: (v, None if v else f"fc {k} of this evaluation failed: {cer['hints']['501']}") for k, v in cer["fc"].items()},
+                                             hints=cer["hints"], packages=cer["packages"]))
+            try:
+                tree = await parse_expression_including_unresolved_subexpressions(s, resolve_packages=True)
+                r = await evaluate_ahb_expression_tree(tree)
+                return (P.resolved_shape(tree), str(r.requirement_indicator.value), repr(r.requirement_constraint_evaluation_result), repr(r.format_constraint_evaluation_result))
+            except BaseException as e:  # pylint:disable=broad-except
+                return ("raises", type(e).__name__)
+
+        async def alone(job):
+            return await asyncio.create_task(one(job[0], job[1], 0))
+
+        async def together():
+            return await asyncio.gather(*[one(*job) for job in jobs])
+
+        S.set_schedule({})
+        ref = [asyncio.run(alone(job)) for job in jobs]
+        for k in range(ctx.pick(3, 10)):
+            S.set_schedule({} if k == 0 else {(kind, key): rng.randint(0, 4) for kind in ("rc", "fc", "hint", "pkg") for key in list(jobs[0][1]["rc"]) + list(jobs[0][1]["fc"]) + list(jobs[0][1]["hints"]) + ["7P", "8P", "9P"]})
+            got = asyncio.run(together())
+            ctx.case(("concurrent", tuple(j[0] for j in jobs), tuple(str(j[1]["rc"]) for j in jobs), k), nontrivial=True)
+            ctx.count("concurrent_evaluations", str(m))
+            bad = [j for j in range(m) if got[j] != ref[j]]
+            if bad:
+                j = bad[0]
+                ctx.violation("an evaluation running concurrently with others (each with its own context-local data) does not give the result it gives alone",
+                              {"evaluations": [{"expression": q[0], "content_evaluation": q[1], "starts_after_yields": q[2]} for q in jobs], "evaluation": j,
+                               "alone": ref[j], "concurrently": got[j], "delays": {f"{a}:{b}": d for (a, b), d in S.SCHEDULE.items() if d}}, key="concurrent-evaluations")
+                break
 
     # ---- concurrent evaluations taking their data from context-local storage ----------------------------------
     from ahbicht.content_evaluation import is_valid_expression
